@@ -1,6 +1,8 @@
 // Package htmldoc provides HTML document parsing.
 package htmldoc
 
+import "strings"
+
 // parsedElement represents a parsed element from the HTML document.
 type parsedElement struct {
 	Type    ElementType
@@ -72,40 +74,127 @@ type TableCell struct {
 	ColSpan  int
 }
 
-// ToMarkdown converts the table to markdown format.
+// maxCellSpan is the largest colspan/rowspan accepted. The spans size the table
+// grid; a larger value than any real table has is treated like any other invalid
+// value (zero, negative, not a number) and counts as 1.
+const maxCellSpan = 1024
+
+// maxTableGridCells is the largest grid (rows x columns) on which spans are
+// honoured. Each span is limited on its own, but the grid is their product with
+// the number of rows and of cells. Beyond the limit the spans are not believed and
+// every cell counts as one column and one row.
+const maxTableGridCells = 1 << 20
+
+// cellSpan returns the number of grid columns (rows) a colspan (rowspan) stands for.
+func cellSpan(span int) int {
+	if span < 1 || span > maxCellSpan {
+		return 1
+	}
+	return span
+}
+
+// grid places the cells of the table on its grid, as a browser lays the table
+// out: the cells of a row go, in order, to the first column that is not covered
+// by a cell of a row above (rowspan), and a cell covers ColSpan columns and
+// RowSpan rows from there. The result has one row per row of t.Rows and the same
+// number of columns in every row; a cell stands at its top-left position, the
+// other positions it covers and the positions a short row leaves open are nil.
+func (t *ParsedTable) grid() [][]*TableCell {
+	grid, ok := t.layout(true)
+	if !ok {
+		grid, _ = t.layout(false)
+	}
+	return grid
+}
+
+// layout is grid with the spans honoured or not; with spans it gives up (false)
+// as soon as the grid exceeds maxTableGridCells.
+func (t *ParsedTable) layout(spans bool) ([][]*TableCell, bool) {
+	grid := make([][]*TableCell, len(t.Rows))
+	// covered[c] is the number of rows, from the current one on, in which
+	// column c belongs to a cell placed earlier; len(covered) is the grid width.
+	var covered []int
+	for i, row := range t.Rows {
+		var line []*TableCell
+		for j := range row {
+			for len(line) < len(covered) && covered[len(line)] > 0 {
+				line = append(line, nil) // covered from above
+			}
+			cols, rows := 1, 1
+			if spans {
+				cols, rows = cellSpan(row[j].ColSpan), cellSpan(row[j].RowSpan)
+			}
+			col := len(line)
+			if col+cols > len(covered) {
+				if spans && len(t.Rows) > maxTableGridCells/(col+cols) {
+					return nil, false
+				}
+				covered = append(covered, make([]int, col+cols-len(covered))...)
+			}
+			line = append(line, &row[j])
+			for k := 1; k < cols; k++ {
+				line = append(line, nil) // covered by this cell
+			}
+			for k := col; k < col+cols; k++ {
+				covered[k] = rows
+			}
+		}
+		grid[i] = line
+		for k := range covered {
+			if covered[k] > 0 {
+				covered[k]--
+			}
+		}
+	}
+	for i := range grid {
+		for len(grid[i]) < len(covered) {
+			grid[i] = append(grid[i], nil)
+		}
+	}
+	return grid, true
+}
+
+// ToMarkdown converts the table to markdown format. Markdown has no merged
+// cells: every row is written with the column count of the table's grid, a cell
+// with colspan/rowspan at its top-left position and the positions it covers as
+// empty cells, so that every text stays under its own column.
 func (t *ParsedTable) ToMarkdown() string {
 	if len(t.Rows) == 0 {
 		return ""
 	}
 
-	var result string
+	var result strings.Builder
+	writeRow := func(row []*TableCell) {
+		result.WriteString("|")
+		for _, cell := range row {
+			text := ""
+			if cell != nil {
+				text = cell.Text
+			}
+			result.WriteString(" " + escapeMarkdown(text) + " |")
+		}
+		result.WriteString("\n")
+	}
+
+	grid := t.grid()
 
 	// First row (header or first data row)
-	firstRow := t.Rows[0]
-	result += "|"
-	for _, cell := range firstRow {
-		result += " " + escapeMarkdown(cell.Text) + " |"
-	}
-	result += "\n"
+	writeRow(grid[0])
 
 	// Separator
-	result += "|"
-	for range firstRow {
-		result += " --- |"
+	result.WriteString("|")
+	for range grid[0] {
+		result.WriteString(" --- |")
 	}
-	result += "\n"
+	result.WriteString("\n")
 
 	// Data rows. The first row has been written above the separator whether or
 	// not it is a header row (a pipe table needs one), so it is never repeated.
-	for i := 1; i < len(t.Rows); i++ {
-		result += "|"
-		for _, cell := range t.Rows[i] {
-			result += " " + escapeMarkdown(cell.Text) + " |"
-		}
-		result += "\n"
+	for _, row := range grid[1:] {
+		writeRow(row)
 	}
 
-	return result
+	return result.String()
 }
 
 // escapeMarkdown escapes special markdown characters in text.
